@@ -39,6 +39,21 @@ def groups(sc, tier):
                         remove_bodies=rm, backends=("cvc5",), timeout=600, functions=[fn], stubs_used=u3, no_safety=True,
                         export_local=True, native_harness=p23, unwind=33, restrict_retry="V_RESTRICT_LEAVES",
                         expect_canaries=None if t == "other" else ["defined"]))
+    # barn twins of every variant and the un-suffixed aliases (same harness vocabulary as C05)
+    variants4 = ("Cascade", "Nonradiative_Cascade", "Radiative_Cascade", "no_Cascade")
+    allk = ["CS_FluorLine_Kissel_" + v for v in variants4] + ["CS_FluorShell_Kissel_" + v for v in variants4]
+    stb, ub = common.stubs(sc, allk, "kbarn")
+    rmb = rm + allk + ["CS_Total_Kissel"]
+    for kind in ("Line", "Shell"):
+        for v in variants4:
+            fb = "CSb_Fluor%s_Kissel_%s" % (kind, v)
+            gs.append(Group("C08.K2.barn." + fb, "K2", "lemma_" + fb, sources=["src/kissel_pe.c"], extra=["harness/h_cs.c", stb, common.STATE],
+                            remove_bodies=rmb, backends=("cvc5",), timeout=600, functions=[fb], stubs_used=ub, no_safety=True, export_local=True,
+                            unwind=33, native_harness="harness/h_cs.c", restrict_retry="V_RESTRICT_LEAVES", expect_canaries=["defined"]))
+        fa = "CS_Fluor%s_Kissel" % kind
+        gs.append(Group("C08.K2.alias." + fa, "K2", "lemma_" + fa, sources=["src/kissel_pe.c"], extra=["harness/h_cs.c", stb, common.STATE],
+                        remove_bodies=rmb, backends=("cvc5",), timeout=600, functions=[fa], stubs_used=ub, no_safety=True, export_local=True,
+                        unwind=33, native_harness="harness/h_cs.c", expect_canaries=["defined"]))
     # line dispatch (macro CS_FLUORLINE_BODY): Siegbahn groups + out-of-range for all four instantiations; the 383 single-line
     # macros enumerated with a constant line in chunks of 32 for the full-cascade instantiation
     st4, u4 = common.stubs(sc, ["RadRate"] + ["CS_FluorShell_Kissel_" + v for v in ("no_Cascade", "Radiative_Cascade", "Nonradiative_Cascade", "Cascade")], "kline")
